@@ -107,6 +107,8 @@ const CALLS = {
   a7: (m) => m.a7('wrapped: Error: inner'),
   b1: (m) => m.b1(' q ')
 }
+// sites of the position-collision file (see collisionFile)
+for (let k = 0; k < 16; k++) CALLS['s' + k] = (m) => m['s' + k]()
 // top-frame site of each call (null: the top frame is not in the rewritten file)
 const TOP = { a1: 'a1', a2: 'a2', a3: null, a4: 'a4', a5: null, a6: 'a6', a7: 'a7', b1: 'b1' }
 
@@ -197,6 +199,32 @@ function judge (main, exportsObj, fileInfo, expect, v, where, notes) {
 }
 function escapeRe (s) { return s.replace(/[.*+?^${}()|[\]\\]/g, '\\$&') }
 
+// A NOT-modified version of a.js whose throw sites sit at exactly the content line:column of the in-file
+// frames of the rewritten A1: a lookup answered from anything remembered for the earlier content shows up
+let collision = null
+function collisionFile (a1Content, a1File) {
+  if (collision) return collision
+  const ex = load(a1File, a1Content)
+  const pos = new Map()
+  for (const name of Object.keys(CALLS)) {
+    if (!(name in ex)) continue
+    const cap = capture(() => CALLS[name](ex), 'raw')
+    if (Array.isArray(cap.stack)) for (const fr of cap.stack) if (fr.file === a1File && fr.col >= 7 && fr.line >= 3 && !pos.has(fr.line)) pos.set(fr.line, fr.col)
+  }
+  const targets = Array.from(pos).sort((a, b) => a[0] - b[0]).slice(0, 16)
+  const lines = []
+  while (lines.length < targets[0][0] - 2) lines.push('// filler (no instrumentable operation in this version)')
+  lines.push('function site(k) { switch (k) { case 0:')
+  targets.forEach(([l, c], i) => {
+    while (lines.length < l - 1) lines.push('// filler')
+    lines.push(' '.repeat(c - 7) + `throw new Error('s${i}'); case ${i + 1}:`)
+  })
+  lines.push('}}')
+  lines.push('module.exports = {' + targets.map((_, i) => `s${i}: () => site(${i})`).join(', ') + '}')
+  collision = { file: a1File, code: lines.join('\n') + '\n', sites: {}, orig: { path: a1File, shift: 0 }, lineCount: lines.length, targets }
+  return collision
+}
+
 // ---- leaves -------------------------------------------------------------------------------------------------
 const VERSIONS = {
   A1: () => mkFile('a', A_BODY, 'v1', false),
@@ -219,7 +247,7 @@ async function build (tier) {
   }
   { // (H) histories of rewrite events on the caching rewriter
     const h = tier === 'thorough' ? 5 : 3
-    const r = histories(['A1', 'A2', 'B1', 'A3', 'Aerr', 'A1c'], h)
+    const r = histories(['A1', 'A2', 'B1', 'A3', 'Aerr', 'A1c', 'A5'], h)
     stats = addStats(stats, r.stats)
     for (const hist of r.histories) leaves.push({ fam: 'history', key: 'hist¦' + hist.join(','), hist })
   }
@@ -230,7 +258,7 @@ async function build (tier) {
     stats = addStats(stats, r.stats)
     for (const l of r.leaves) leaves.push({ fam: 'disk', key: ['disk', l.pick.kind, l.pick.args, l.pick.repeat].join('¦'), pick: l.pick })
   }
-  return { leaves, stats, bound: { history_length: tier === 'thorough' ? 5 : 3, events: 6, layouts: Object.keys(LAYOUTS).length }, alphabets: { events: ['A1', 'A2', 'B1', 'A3(not modified)', 'Aerr(syntax error)', 'A1c(chained)'], sites: Object.keys(CALLS), layouts: Object.keys(LAYOUTS) } }
+  return { leaves, stats, bound: { history_length: tier === 'thorough' ? 5 : 3, events: 7, layouts: Object.keys(LAYOUTS).length }, alphabets: { events: ['A1', 'A2', 'B1', 'A3(not modified)', 'Aerr(syntax error)', 'A1c(chained)', 'A5(not modified, throw sites at the content positions of rewritten A1)'], sites: Object.keys(CALLS), layouts: Object.keys(LAYOUTS) } }
 }
 
 function requests (leaf) {
@@ -238,7 +266,7 @@ function requests (leaf) {
     const f = mkFile(leaf.pick.body.toLowerCase(), leaf.pick.body === 'A' ? A_BODY : B_BODY, leaf.pick.layout, leaf.pick.chained)
     return [{ config: Object.assign({}, C.FULL, { chainSourceMap: leaf.pick.chained, comments: leaf.pick.comments }), file: f.file, code: f.code }]
   }
-  if (leaf.fam === 'history') return Array.from(new Set(leaf.hist)).map((ver) => { const f = VERSIONS[ver](); return { config: cfgFor('c'), file: f.file, code: f.code, id: ver } })
+  if (leaf.fam === 'history') return Array.from(new Set(leaf.hist.map((ver) => ver === 'A5' ? 'A1' : ver))).map((ver) => { const f = VERSIONS[ver](); return { config: cfgFor('c'), file: f.file, code: f.code, id: ver } })
   return []
 }
 
@@ -263,7 +291,7 @@ function diskFixture () {
   return tmpDir
 }
 
-async function check (leaf, resps) {
+async function check (leaf, resps, ctx) {
   const res = { nontrivial: true, outcome: leaf.fam, violations: [], distinctKey: leaf.key, notes: {} }
   const v = (rule, sig, detail) => res.violations.push({ rule, sig, detail: detail + '\n  leaf: ' + leaf.key })
   const main = bridge.loadMain() // fresh module instances: the caches are part of the state
@@ -290,8 +318,15 @@ async function check (leaf, resps) {
     resps.forEach((r) => { byVer[r.id] = r })
     const rw = new main.Rewriter(config)
     const state = {} // file -> {runnable content, expectation}
+    if (leaf.hist.includes('A5')) {
+      if (!byVer.A1 || !byVer.A1.content) { v('setup', 'A5', 'A1 was not rewritten'); return res }
+      const f5 = collisionFile(byVer.A1.content, VERSIONS.A1().file)
+      byVer.A5 = await ctx.service.send({ config, file: f5.file, code: f5.code })
+      if (byVer.A5.status !== 'ok' || byVer.A5.content) { v('setup', 'A5', 'the collision file is not a not-modified file'); return res }
+      res.notes.collision_sites = f5.targets.length
+    }
     leaf.hist.forEach((ver, i) => {
-      const f = VERSIONS[ver]()
+      const f = ver === 'A5' ? collision : VERSIONS[ver]()
       bridge.provide(config, f.code, f.file, byVer[ver])
       let out = null
       try { out = rw.rewrite(f.code, f.file) } catch (e) { if (ver !== 'Aerr') v('rewrite-threw', ver, `event ${i} (${ver}) threw ${String(e.message).slice(0, 80)}`) }
@@ -356,7 +391,7 @@ module.exports = {
   requests,
   check,
   inflight: 2,
-  rule: 'leaf = (file body x layout x chained x comments) | (history of rewrite events on one caching rewriter, length <= h, alphabet {A v1, A v2 (other layout), B, A not-modified, A syntax error, A chained}) | (kind of on-disk file x argument shape x repetition for getOriginalPathAndLineFromSourceMap); every leaf throws every generator-known site with real V8 call sites, on both prepareStackTrace paths; non-trivial = all; distinct by leaf descriptor',
+  rule: 'leaf = (file body x layout x chained x comments) | (history of rewrite events on one caching rewriter, length <= h, alphabet {A v1, A v2 (other layout), B, A not-modified, A syntax error, A chained, A not-modified with throw sites at the very content positions of the rewritten A v1}) | (kind of on-disk file x argument shape x repetition for getOriginalPathAndLineFromSourceMap); every leaf throws every generator-known site with real V8 call sites, on both prepareStackTrace paths; non-trivial = all; distinct by leaf descriptor',
   explanation: 'breadth-first search over rewrite histories on the real CacheRewriter + exhaustive single-file and on-disk families; invariant after every event: every frame inside a rewritten file reports the original path and a generator-known original line (chained: the pre-transpilation file and line), frames of other files are byte-identical to V8\'s own rendering, nothing throws',
   assumptions: ['main.js, js/source-map and js/stack-trace are the real files; lru-cache and the wasm class are stand-ins (bridge.js)', 'only lines are judged, not columns', 'content is compiled with vm.compileFunction under the file name, in the main realm, so the handler under test is the one V8 consults']
 }
